@@ -14,7 +14,7 @@ RULE = ("files produced by the independent writer of harness/ioops.py (not praat
 TRUSTED = ["oracle: the data the file was written from (harness/props/C03.py:oracle); Python codecs; the independent writer "
            "ioops.spec_write/json_write (its output is decoded back by the independent reader in the same run)"]
 ASSUMPTIONS = ["labels and names avoid the reader-splitting keywords of known finding A10 (C01 reports those)",
-               "names non-empty, single-line, trimmed; no carriage returns in labels"]
+               "names non-empty, single-line; no carriage returns in labels"]
 LAYOUTS = ["long", "short", "elan", "tight", "json", "textgrid_json"]
 ENCODINGS = ["utf-8", "utf-8-sig", "utf-16", "utf-16-le-bom", "utf-16-be-bom"]
 
@@ -141,7 +141,7 @@ SAFE_LABELS = [l for l in ioops.PLAIN_LABELS if ioops.keyword_cause([l]) is None
 
 def gen_data(rnd, style):
     import props.C01 as C01
-    g = C01.despace(ioops.gen_tg(rnd, "simple" if style != "exp" else "full", labels=SAFE_LABELS + ["", ""], names=["w", "p", "t 1", "é", "n\"q"]), rnd)
+    g = C01.despace(ioops.gen_tg(rnd, "simple" if style != "exp" else "full", labels=SAFE_LABELS + ["", ""], names=["w", "p", "t 1", "é", "n\"q"] + ioops.BLANK_NAMES), rnd)
     d = {"lo": g["lo"], "hi": g["hi"], "tiers": g["tiers"]}
     if style == "exp":
         # make sure some numerals really use an exponent
@@ -180,6 +180,14 @@ def corpus():
     for layout in LAYOUTS:
         for style in ("plain", "exp", "float"):
             yield {"op": "open", "data": d4, "layout": layout, "style": style, "enc": "utf-8", "newline": "\n", "iei": True, "dup": "error", "negzero": style == "plain"}
+    # A31 (fixed): tier names with surrounding blanks / tabs in every layout (long and short encodings open to equal textgrids)
+    d5 = {"lo": 0.0, "hi": 2.0, "tiers": [{"k": "I", "name": " a b ", "es": [[0.0, 1.0, "x"]], "lo": 0.0, "hi": 2.0},
+                                        {"k": "P", "name": "\tq ", "es": [[0.5, "m"]], "lo": 0.0, "hi": 2.0}]}
+    for layout in LAYOUTS:
+        yield {"op": "open", "data": d5, "layout": layout, "style": "plain", "enc": "utf-8", "newline": "\n", "iei": True, "dup": "error", "negzero": False}
+    for t in ['" a " \n', '"\ta\n "\nx', '"  ""q"" "\n', '" "\n', '""\n']:
+        for st in (True, False):
+            yield {"op": "u_fetchtext", "s": t, "i": 0, "anyerr": False, "strip": st}
     for t in ["xmin = -1.5 ", "xmax = -1.5", "number= -0\n", "xmax = - 1", "xmin = --1", "xmax = -.5e-3 \n", "xmax = -e5", "xmin = +1", "xmax = -\n1"]:
         for kw in ("xmin", "xmax", "number"):
             yield {"op": "u_num", "s": t, "kw": kw, "neg": True, "ascii": True}
@@ -217,7 +225,8 @@ def unit_cases(rnd, n):
             yield {"op": "u_class", "s": rnd.choice([s, t, t])}
         else:
             t = "".join(rnd.choice(["\"", "\"\"", "a", " ", "\n", "b\"", "\"\"\"", "\t"]) for _ in range(rnd.randint(0, 10)))
-            yield {"op": rnd.choice(["u_fetchtext", "u_fetchrow"]), "s": t, "i": rnd.randint(0, max(0, len(t))), "anyerr": False}
+            yield {"op": rnd.choice(["u_fetchtext", "u_fetchrow"]), "s": t, "i": rnd.randint(0, max(0, len(t))), "anyerr": False,
+                   "strip": rnd.random() < 0.5}
 
 
 def derived(c, rnd):
